@@ -36,6 +36,71 @@ func clFail(n ast.Node, format string, a ...any) {
 type clX struct {
 	recv string // receiver name of the function being walked
 	cand string // the variable assigned from loadSourcesSequential (the candidate map)
+	pk   *pkg   // the package, to follow direct same-package helpers
+}
+
+// validatorHelper: c is `h(…)` with h a package-level function that is handed the validator fn and the candidate
+// (two arguments, either order) and whose body does nothing but call the one on the other — `return pf(pv)` or
+// `x = pf(pv)` … `return x` — possibly under a deferred recover(). Returns (is such a call, recovers).
+func (x *clX) validatorHelper(c *ast.CallExpr, fn string) (bool, bool) {
+	id, ok := c.Fun.(*ast.Ident)
+	if !ok || x.pk == nil || len(c.Args) != 2 {
+		return false, false
+	}
+	d := x.pk.funcs[id.Name]
+	if d == nil || d.Body == nil {
+		return false, false
+	}
+	var params []string
+	for _, f := range d.Type.Params.List {
+		for _, n := range f.Names {
+			params = append(params, n.Name)
+		}
+	}
+	if len(params) != 2 {
+		return false, false
+	}
+	iFn, iVal := -1, -1
+	for i, a := range c.Args {
+		if u, ok := a.(*ast.UnaryExpr); ok && u.Op == token.AND {
+			a = u.X
+		}
+		if clIsIdent(a, fn) {
+			iFn = i
+		} else if x.cand != "" && clIsIdent(a, x.cand) {
+			iVal = i
+		}
+	}
+	if iFn < 0 || iVal < 0 {
+		return false, false
+	}
+	pf, pv := params[iFn], params[iVal]
+	calls, recovers, other := 0, false, false
+	for _, st := range d.Body.List {
+		switch v := st.(type) {
+		case *ast.DeferStmt:
+			ast.Inspect(v, func(k ast.Node) bool {
+				if cc, ok := k.(*ast.CallExpr); ok && clIsIdent(cc.Fun, "recover") {
+					recovers = true
+				}
+				return true
+			})
+		case *ast.ReturnStmt, *ast.AssignStmt, *ast.DeclStmt:
+			ast.Inspect(v, func(k ast.Node) bool {
+				if cc, ok := k.(*ast.CallExpr); ok {
+					if clIsIdent(cc.Fun, pf) && len(cc.Args) == 1 && clIsIdent(cc.Args[0], pv) {
+						calls++
+					} else {
+						other = true
+					}
+				}
+				return true
+			})
+		default:
+			other = true
+		}
+	}
+	return calls == 1 && !other, recovers
 }
 
 // rooted reports whether e is an expression rooted at the receiver (c, c.x, c.x.y, *c.x, c.x[i], &c.x …).
@@ -386,6 +451,18 @@ func (x *clX) validatorsLoop(r *ast.RangeStmt) string {
 						}
 						return false
 					}
+					// the call handed to a direct same-package helper: `verr := runIt(fn, newValues)`
+					if c, ok := v.Rhs[0].(*ast.CallExpr); ok {
+						if isH, rec := x.validatorHelper(c, fn.Name); isH {
+							calls++
+							if len(v.Lhs) == 1 {
+								if id, ok := v.Lhs[0].(*ast.Ident); ok {
+									resultVar, good, recovers = id.Name, true, rec || litRecovers
+								}
+							}
+							return false
+						}
+					}
 				}
 			case *ast.CallExpr:
 				if clIsIdent(v.Fun, fn.Name) {
@@ -402,7 +479,7 @@ func (x *clX) validatorsLoop(r *ast.RangeStmt) string {
 	// `if <resultVar> != nil { return <error> }` directly in the loop body
 	checked := false
 	for _, s := range r.Body.List {
-		if iff, ok := s.(*ast.IfStmt); ok && iff.Init == nil && errTest(iff.Cond) == resultVar && returnsError(iff.Body) {
+		if iff, ok := s.(*ast.IfStmt); ok && errTest(iff.Cond) == resultVar && returnsError(iff.Body) {
 			checked = true
 		}
 	}
@@ -717,7 +794,7 @@ func genConfigLoad(repo string) (out string) {
 	if load == nil || lss == nil {
 		clFail(nil, "config: (*Config).Load or loadSourcesSequential not found")
 	}
-	x := &clX{recv: recvName(load)}
+	x := &clX{recv: recvName(load), pk: p}
 	if x.recv == "" {
 		clFail(load, "Load has no named receiver")
 	}
